@@ -550,6 +550,10 @@ rd("x", x)
 	r8Reached(c, "evaluations_of_one_name_node", k)
 }
 
+func realrunSession(src string, budget int) realrun.Real {
+	return realrun.NewSession(budget).Exec(src, r8Watchdog)
+}
+
 func r8One(c *wk.Case, mp *modelProp, name, src string, want []string, wantErr string, extra map[string]interface{}) bool {
 	return r8OneEnv(c, mp, name, src, want, wantErr, extra, nil)
 }
@@ -650,6 +654,11 @@ func c07Sites() []r8Site {
 		{name: "return-list", site: `func() { return p(1), p(2), p(3) }()`, want: all(evP(1), evP(2), evP(3))},
 		{name: "multi-assign", site: `a1, a2 = p(1), p(2)`, want: all(evP(1), evP(2))},
 		{name: "multi-var", site: `var b1, b2 = p(1), p(2)`, want: all(evP(1), evP(2))},
+		{name: "multi-assign-list-literal", site: `a1, a2 = [p(1), p(2)]`, want: all(evP(1), evP(2))},
+		{name: "multi-assign-list-literal-surplus", site: `a1, a2 = [p(1), p(2), p(3), p(4)]`, want: all(evP(1), evP(2), evP(3), evP(4))},
+		{name: "multi-assign-paren-list-literal-surplus", site: `a1, a2 = ([p(1), p(2), p(3)])`, want: all(evP(1), evP(2), evP(3))},
+		{name: "multi-var-list-literal-surplus", site: `var b1, b2 = [p(1), p(2), p(3)]`, want: all(evP(1), evP(2), evP(3))},
+		{name: "multi-assign-surplus-values", site: `try { a1, a2 = p(1), p(2), p(3) } catch e { }`, want: all(evP(1), evP(2), evP(3))},
 		{name: "and", site: `pv(1, i % 2 == 0) && p(2)`, want: par([]string{evPv(1), evP(2)}, []string{evPv(1)})},
 		{name: "or", site: `pv(1, i % 2 == 0) || p(2)`, want: par([]string{evPv(1)}, []string{evPv(1), evP(2)})},
 		{name: "ternary", site: `pv(1, i % 2 == 0) ? p(2) : p(3)`, want: par([]string{evPv(1), evP(2)}, []string{evPv(1), evP(3)})},
